@@ -8,14 +8,15 @@ import vlib
 LEVEL = "model_checking"
 XN = ["xMin", "xMid", "xMax"]
 YN = ["YMin", "YMid", "YMax"]
-SEPS = [" ", ",", " , ", "  ", ", ", "\t", "\n "]
+SEPS = [" ", ",", " , ", "  ", ", ", "\t", "\n "]             # viewBox numbers: white space and/or a comma
+PSEPS = [" ", "  ", "\t", " \t ", "   ", "\n ", " \n"]      # preserveAspectRatio words: white space only (its grammar has no comma)
 NVAR = 112                     # 4 case styles x 7 separators x defer x leading space; the size factors and number formats ride on the same index
 # exact (dyadic) size factors (viewBox numbers, document size): sizes are not integers in real documents ("0 0 8.5 11", width 793.7)
 FACTORS = [(1, 1), (0.125, 1), (1, 0.375), (2.5, 0.125)]
 
 
 def factors(variant):
-    return FACTORS[(variant // 28) % 4]
+    return FACTORS[(variant + variant // 4 + variant // 28) % 4]          # mixed with case, separator, defer and leading space, not tied to one of them
 
 
 def _pu():
@@ -26,7 +27,7 @@ def _pu():
 def render_par(al, mos, variant):
     """preserveAspectRatio text for an align (pair or [9,9] = none) and meet/slice/absent, in a syntactic variant"""
     name = "none" if al[0] == 9 else XN[al[0]] + YN[al[1]]
-    case, sep, defer, lead = variant % 4, SEPS[(variant // 4) % len(SEPS)], (variant // 28) % 2, (variant // 56) % 2
+    case, sep, defer, lead = variant % 4, PSEPS[(variant // 4) % len(PSEPS)], (variant // 28) % 2, (variant // 56) % 2
     name = [name, name.lower(), name.upper(), name.lower()][case]
     toks = ([["defer", "defer", "DEFER", "Defer"][case]] if defer else []) + [name] + \
         ([] if mos == "absent" else [[mos, mos.upper(), mos.capitalize(), mos.upper()][case]])
@@ -78,9 +79,8 @@ def doc_size(kind, W, H, variant):
         W = -W
     fd = factors(variant)[1]
     if fd != 1:
-        conv = [float, repr][variant % 2]
-        return conv(float(W * fd)), conv(float(H * fd))
-    conv = [int, float, str][variant % 3]
+        return float(W * fd), float(H * fd)
+    conv = [int, float][variant % 2]                   # document sizes are numbers (the callers pass parsed lengths)
     return conv(W), conv(H)
 
 
@@ -187,7 +187,7 @@ def run(ctx):
                         "unknown align words and more than four viewBox numbers are outside the statement"]
     return ctx.finish(
         rule="G: every (min-x,min-y,w,h,W,H) x {none + 9 aligns} x {meet,slice,absent} of the TLC universe plus 14 malformed kinds (each also with none and slice), each rendered in "
-             "2-3 of 112 variants (case incl. mixed, 7 separators incl. tab/newline, defer, leading space, number format, 4 non-integer size factors; all 112 for a fifth of the malformed vectors); V: random integers up to 1000; "
+             "2-3 of 112 variants (case incl. mixed, 7 separators incl. tab/newline, defer, leading space, number format, 4 non-integer size factors; all 112 for a fifth of the malformed vectors); V: random integers up to 1000 (and page sizes up to 60x that, with aspect ratios a hair apart); "
              "distinct = distinct (vector, variant)",
         explanation="TLC checks that the code's two-branch excess-width/height formulation lands the viewBox min corner where SVG 1.1 prescribes on the whole "
                     "universe (both aspect orderings and equality), and emits the abstract scale/landing for every vector; the real vb_scale is judged against it.")
